@@ -2,7 +2,7 @@
 import itertools
 
 import compat  # noqa: F401
-from props.base import to_request, corpus_for  # noqa: F401
+from props.base import corpus_for  # noqa: F401
 
 ID = 'C11'
 LEAN_MODULES = ['PybtexModel.Props.C11']
@@ -22,26 +22,88 @@ THEOREMS = {
     'C11_default_separator': 'default separator: one token as is; two tokens a tie; three or more: tie after the first token iff its text length < 3 else space, spaces between the middle tokens, tie before the last; ".~"/". " when abbreviating',
     'C11_discretionary_tie': 'a single trailing ~ on the post-text adds a tie iff the text length of the formatted part is < 3, else a blank; ~~ always adds a tie; errors unchanged',
     'C11_discretionary_tie_no_letters': 'a part without letters: its text acts as post-text, with the same tie directives',
+    'C11_compositional': 'a well-formed part written in front of ANY format string (well-formed or not) contributes the rule for that part alone (Spec.formatPart) in front of what the rest yields; an error of the rest stays that error: with C11_level0_verbatim, level-0 text and parts at any position follow part by part, without the reference parser',
+    'C11_hyphen_abbreviation': 'hyphen-aware abbreviation at property level: a token written as hyphen-joined pieces (free of hyphens and braces, possibly empty: Jean--Pierre, -Jean) abbreviates to the first letters of its pieces in order, joined by ".-" or the explicit separator; pieces without a letter are skipped',
+    'C11_full_vs_abbrev_tokens': 'full versus abbreviated form for ANY number of tokens: f is ff with every token replaced by its own abbreviation and, with the default separator, a period in front of every tie and blank; with an explicit separator only the shown tokens differ',
+    'C11_letter_run_lowercasing': 'check_format_chars lower-cases the letter run with str.lower(); the model uses the ASCII lower-casing: both accept exactly the same runs (no character outside ASCII is mapped to f, l, v or j: kernel evaluation over the interpreter\'s regenerated str.lower table), and these are the runs the reference grammar decodes',
+    'C11_nth_name': 'the n-th name of a name list: on names written with " and " between them (each balanced, without level-0 " and ", stripped) the format.name$ built-in with number k+1 formats exactly the k-th name with format_name; a number outside 1..count gives the no-such-name outcome; the built-in never ends in an internal error',
 }
-RULE = ('name shapes of the C04 generator (<= tier token count, comma forms) x every format of <= 2 name parts from the grammar '
-        '{letters f l v j single/double in both cases, pre-text, post-text with ./~/~~, explicit separator} + level-0 text; '
-        'every string up to the tier length over {{ }} f l x ~ space _ 1} as (mostly malformed) format; seeded random names and formats; '
+RULE = ('names: the fixed sample, the names of the C04 generator of the same tier (a fixed stride of them, one key format each), the C04 token shapes '
+        '(<= 2 tokens over all ASCII and non-ASCII token classes, 3 tokens over a reduced class set, comma forms) x 16 key formats, the C04 Unicode '
+        'names and random pool, names with a brace-level-0 backslash, empty / leading / trailing hyphen pieces, tabs, '
+        'line breaks and other white space; formats: every one-part format from the grammar {letters f l v j single/double in both cases, pre-text, '
+        'post-text with ./~/~~, explicit separator}, two-part formats, standard formats, level-0 text, non-ASCII text, letters and digits in every '
+        'position of a part, code points at the boundaries of the interpreter\'s \\w / \\d / isalpha tables, brace nesting up to 1200 levels; '
+        'every string up to the tier length over {{ }} f l x ~ space _ 1} and systematic two-run / illegal-run / unbalanced parts as (mostly malformed) '
+        'formats; the format.name$ built-in on name lists x name numbers (incl. out of range); seeded random names and formats; '
         'non-trivial = format with a name part and a name with more than one token; distinct by case JSON')
-TRUSTED = ['letters are ASCII in the model', 'name splitting is the C04 model, string primitives the C12 model']
-ASSUMPTIONS = ['names and formats contain no non-ASCII letters or digits']
+TRUSTED = ['character classes: \\w, \\d (re.UNICODE) and str.isalpha of the running interpreter on single code points, regenerated as range tables '
+           'on every run (Gen/FormatChars.lean, Gen/Unicode.lean); the letter run of a format part is lower-cased with the ASCII mapping in the '
+           'model: proved to accept the same runs as the single-character str.lower table (C11_letter_run_lowercasing); for the characters whose '
+           'lower-case form is several characters (U+0130) the generator of the tables re-checks on every run that none of them contains f, l, v or j',
+           'name splitting is the C04 model (mkPerson), scan / bibtex_len / split_tex_string the C12 model']
+ASSUMPTIONS = ['/repo carries the proposed repair C11-2 (parse_braced_string iterative: a format whose braces nest some 500 levels deep no longer '
+               'ends in RecursionError); on a tree without it the check reports the defect as a violation with a failing input',
+               'BibTeX knows 8-bit characters only: beyond ASCII a "letter" of a format string is what the code\'s Unicode-aware patterns say '
+               '(word character other than a decimal digit and "_"), the first letter of a name token is str.isalpha']
 
 NAMES = ['Charles Louis Xavier Joseph de la Vall{\\\'e}e Poussin', 'von Beethoven, Jr, Ludwig', 'Smith', 'de la Fontaine, Jean',
          'Jean-Paul Sartre', 'A. B. Cde', '{Barnes and Noble}', "{\\'E}mile Zola", 'Ab Cd', 'X Yz, W', 'John von Neumann',
          'Donald E. Knuth', 'Ford, Jr., Henry', 'a b, c d, e f, g', '', 'Jean de~La Fontaine', 'J.-P. Serre', 'Al Bob Cy Di Eve']
+# brace-level-0 backslashes (accents written without braces, as in many real .bib files)
+BACKSLASH_NAMES = ["\\'Emile Zola", "Rodr\\'{\\i}guez, Jos\\'e", '\\LaTeX Project Team', '\\~{n}ez \\~n X', 'Zola, \\', '\\ Zola', 'A\\B C\\ D',
+                   "d'Aviano Marco", '\\\\ a b', "{\\'E}mile \\'Emile {\\'Emile} Zola", '\\', '{\\} x y']
+# hyphens: empty pieces, leading / trailing hyphens, pieces without a letter
+HYPHEN_NAMES = ['Jean--Pierre Hansen', '-Jean Pierre- Hansen', 'Jean- -Paul Sartre', '-- Smith', '- Smith', 'A- -B Smith', 'A--B C---D E',
+                'Jean-{P}aul Sartre', '{Jean-Paul} Sartre', 'J-1-K Smith', "Jean-\\'Emile Zola", '1-2 3-4 Smith', "Jean-{\\'E}mile Zola",
+                'Mary-Jo-Ann van-der-Berg, Jr-III', 'x-y-z a-b c-d', 'Jean - Paul Sartre', 'Jean-Paul-', 'Smith, -', '{-}Jean Paul',
+                'Jean-~Paul X', 'F. Phidias Phony-Baloney', 'Jean-Pierre Hansen', 'Ab-Cd Ef Gh', 'A-B C D', 'Jean-Paul Marie-Claire Anne-Sophie Xu',
+                'Jean -Paul', '-', '--', 'a-', '-a b']
+# white space other than the blank
+WS_NAMES = ['Jean\tPaul\nSartre', 'Ludwig\n   van\tBeethoven', 'von\r\nBeethoven,\n Jr, Ludwig', 'A B\x1fC D', '\tJean Paul\n',
+            'Jean\x0bPaul\x0cSartre', 'a　b c', 'Jean​Paul Sartre', 'Jean-\nPaul Sartre', 'A\tB', 'A\nB\nC\nD', 'Al Bob~Cy Di',
+            'Jean\\ Paul Sartre', 'Jean\\\tPaul Sartre']
+# letters outside ASCII in names (the first letter of an abbreviation is str.isalpha)
+UNI_NAMES = ['Édouard Manet', '毛 泽东', 'ǅon Bob', 'ⓐl Bob', '²Al Bob', 'école ́x Last', 'İstanbul Ali Veli',
+             'ß a B', 'Ⅷ Henry Tudor', '٣Al Bob', 'É-é 毛-泽 Last', "{\\'É}x É{x} Last", 'Жан-Поль Сартр',
+             'é éé ééé éééé', '\U0001d400b \U00020000 Z', '1é 2毛 Last', 'ªº Ab', '{é} {毛} Last']
 LETTERS = ['f', 'ff', 'l', 'll', 'v', 'vv', 'j', 'jj', 'F', 'FF', 'Ll', 'vV']
 PRE = ['', ', ', '{x}', ' ']
 POST = ['', '.', '~', '~~', '.~', '{y}~', ' ']
 DELIM = [None, '', '-', '{ }', '.']
 MAL = ['{', '}', 'f', 'l', 'x', '~', ' ', '_', '1']
+KEYFMTS = ['{ff~}{vv~}{ll}{, jj}', '{f.~}{vv~}{ll}{, jj}', '{vv~}{ll}{, jj}{, f.}', '{f{}}{v{}}{l{}}{j{}}', '{ff{-}}/{vv{-}}/{ll{-}}/{jj{-}}',
+           '{f}|{v}|{l}|{j}', '{f~}{v~}{l~}{j~}', '{ff~~}{vv~~}{ll~~}{jj~~}', '{1 ff}{2 vv~}{ll 3}{, jj.}', '{f.}{ v.}{ l.}{ j.}',
+           '{{a}ff{b}{c}}{{a}f{b}{c}~}', 'Name: {ff }{vv }{ll}{ jj}.', '{ll{, }}{ jj}{ f{.}.}', '{f.~}{ll}', '{, ~}{l.~~}{FF{ }}', '{v.{~}~}{l{.}~}']
+STD = ['{ff~}{vv~}{ll}{, jj}', '{vv~}{ll}{, jj}{, f.}', '{f.~}{vv~}{ll}{, jj}', '{ll}', 'abc def {f~} xyz {f}?',
+       '{{abc}{def}ff~{xyz}{#@$}}', '{f{.}~}', '{vv~}{ll}', '{ff }{vv }{ll}{ jj}', '{l}', '{v{}}{l{}}', '{ll~}x', '{~ll}', '{ll{-}~~}']
+# non-ASCII characters in every position of a format; letters / digits as the interpreter's regexes class them
+UNI_FMTS = ['{é}', '{ff é}', '{fé}', '{éf}', '{ff²}', '{ff٣}', '{٣ff}', '{ff½}', '{KK}', '{ſ}', '{İ}',
+            '{ﬀ}', '{f́}', '{f }', '{Ⅷ}', '{ff{é}}', '{{é}ff}', 'é{ff}毛', '{ff{毛}·}', '{·ff、}',
+            '{f·~}', '{ff²~}', '{ll ٣٤}', '{٣ ll}', '{ff１}', '{ｆｆ}', '{Ｆ}', '{ƒ}', '{ⓕ}', '{ffⓐ}',
+            '{ff①}', '{φφ}', '{ff~é}', '²{ll}½', '{lı}', '{ı}', '{ff_é}', '{é_}', '{̀ff}', '{ff‍}',
+            '{\U0001d41f\U0001d41f}', '{fİ}', '{İf}', '{ſſ}', '{Σf}', '{fΣ}', '{ffΣ}', '{ǅ}', '{ßß}', '{ff\U0001d7d8}', '{\U0001d7d8ll}', '{ff }', '{ ff　}', '{jj๐}', '{᧚}', '{ff᧚}', '{vv〇}']
+# the illegal-run / second-run / unbalanced formats, systematically (quick tier already)
+RUNS2 = ['f', 'ff', 'l', 'LL', 'v', 'jj', 'x', 'fl', 'fff', 'fF', 'Ff', 'lf', 'a', 'ab', 'fj', 'vvv', 'F', 'Jj']
+JOINERS = [' ', '~', '1', '.', '{x}', '{}', '-', ', ', '12', '_', '{', '}', '{f}', 'é', '²', '٣']
+UNBALANCED = ['{ff', 'ff}', '{ff}}', '{{ff}', '{ff{}', '{ff{-}', '{ff{-}}}', '{ff{', '{ff{{}', '{{}ff', '{ff}{', '}{ff}', '{ff}{ll', '{ff{-}{', '{ff{-}{}',
+              '{{ff}}', '{{{ff}}}', '{{}}', '{}', '{}{}', '{{}', '{}}', 'a}', 'a{', '{a', '{ff}a}', '{ff}{{}', '{f}{f}{f', '{ff~', '{~', '{ ', '{1', '{_', '{_}', '_',
+              '{f}_', '{f_}', '{_f}', '{f{_}}', '{{_}f}', '{f}{_}', '{ff{}{}}', '{ff{}{}{}~}', '{ff{a}{b}}', '{{a}{b}ff}', '{{a}b}', '{1{a}2}', '{1{a}2~}']
+
+
+def _interp():
+    from pybtex.bibtex.interpreter import Interpreter
+    return Interpreter(None, 'utf-8')
+
+
+def names_of(case):
+    return ' and '.join(case['parts'])
 
 
 def impl(case):
     from pybtex import errors
+    if case['op'] == 'fmtnth':
+        return _impl_nth(case)
     from pybtex.bibtex.names import format_name
     try:
         with errors.capture() as captured:
@@ -55,8 +117,87 @@ def impl(case):
         return {'error': compat.pybtex_error_kind(e)}
 
 
+def _impl_nth(case):
+    """The format.name$ built-in as a style run executes it: operands on the stack of a real Interpreter, the function looked up in its
+    variable table (pybtex.bibtex.builtins.format_name -> _format_name -> memoised _format_name_and_reports / _split_names)."""
+    from pybtex import errors
+    try:
+        i = _interp()
+        i.push(names_of(case))
+        i.push(case['n'])
+        i.push(case['fmt'])
+        with errors.capture() as captured:
+            i.vars['format.name$'].execute(i)
+        if len(i.stack) != 1 or not isinstance(i.stack[0], str):
+            return {'error': 'UNEXPECTED-STACK:%r' % (i.stack,)}
+        r = i.stack[0]
+        kinds = [type(e).__name__ for e in captured]
+        warns = [e for e in captured if type(e).__name__ == 'BibTeXError']
+        bad = [k for k in kinds if k not in ('InvalidNameString', 'BibTeXError')]
+        if bad:
+            return {'error': 'UNEXPECTED-REPORT:' + ','.join(bad)}
+        if warns:
+            if len(warns) != 1 or len(kinds) != 1 or r != '' or 'there is no name number' not in str(warns[0]):
+                return {'error': 'UNEXPECTED-REPORT:' + ','.join(kinds)}
+            return {'no_such_name': True}
+        return {'str': r, 'too_many_commas': len(kinds) > 0}
+    except Exception as e:  # noqa
+        return {'error': compat.pybtex_error_kind(e)}
+
+
+def _simple_part(p):
+    """A name that certainly is ONE element of the list when joined with ' and ': not blank, balanced braces, no brace-level-0
+    ' and ' (also not at its ends, where the joining blanks would complete one)."""
+    if not p.strip():
+        return False
+    d = 0
+    proj = []
+    for c in p:
+        if c == '{':
+            d += 1
+        elif c == '}':
+            d -= 1
+            if d < 0:
+                return False
+        proj.append(c if d == 0 and c not in '{}' else '#')
+    if d != 0:
+        return False
+    return ' and ' not in (' ' + ''.join(proj).lower() + ' ')
+
+
+def nth_by_construction(case):
+    parts, n = case['parts'], case['n']
+    if not all(_simple_part(p) for p in parts):
+        return None
+    if 1 <= n <= len(parts):
+        return parts[n - 1]
+    return False        # the list has no name number n
+
+
+def to_request(case):
+    if case['op'] != 'fmtnth':
+        return case
+    req = {'op': 'fmtnth', 'names': names_of(case), 'n': case['n'], 'fmt': case['fmt']}
+    nth = nth_by_construction(case)
+    if isinstance(nth, str):
+        req['nth'] = nth
+    return req
+
+
+def valid_case(case):
+    if case.get('op') == 'fmtnth':
+        return isinstance(case.get('parts'), list) and all(isinstance(p, str) for p in case['parts']) and isinstance(case.get('n'), int)
+    return isinstance(case.get('name'), str) and isinstance(case.get('fmt'), str)
+
+
 def model_out(case, reply):
     return reply['out']
+
+
+def _is_letter(c):
+    """a brace-level-1 letter as the format grammar reads it: a word character (\\w = alphanumeric or '_') other than a decimal
+    digit and '_' -- stated with the str predicates, independently of the regexes of names.py and of the tables of the model"""
+    return c.isalnum() and not c.isdecimal()
 
 
 def wellformed(fmt):
@@ -78,9 +219,9 @@ def wellformed(fmt):
             if d < 0:
                 return False
             i += 1
-        elif d == 1 and (c.isalpha() and c.isascii()):
+        elif d == 1 and _is_letter(c):
             j = i
-            while j < n and fmt[j].isalpha() and fmt[j].isascii():
+            while j < n and _is_letter(fmt[j]):
                 j += 1
             run = fmt[i:j].lower()
             if seen or run not in ('f', 'ff', 'l', 'll', 'v', 'vv', 'j', 'jj'):
@@ -97,31 +238,57 @@ def wellformed(fmt):
 def oracle(case, io, reply):
     fails = []
     fmt = case['fmt']
+    nth = None
+    if case['op'] == 'fmtnth':
+        call = 'format.name$(%r, %d, %r)' % (names_of(case), case['n'], fmt)
+        nth = nth_by_construction(case)
+    else:
+        call = 'format_name(%r, %r)' % (case['name'], fmt)
     if 'error' in io:
         k = io['error']
         if k.startswith('INTERNAL') or k.startswith('UNEXPECTED'):
-            fails.append('malformed_rejected: format_name(%r, %r) raised %s (not a pybtex error)' % (case['name'], fmt, k))
+            fails.append('%s: %s raised %s (not a pybtex error)' % ('wellformed_accepted' if wellformed(fmt) else 'malformed_rejected', call, k))
         elif wellformed(fmt) and k != 'BibTeXError':
-            fails.append('wellformed_accepted: format_name(%r, %r) raised %s on a well-formed format' % (case['name'], fmt, k))
+            fails.append('wellformed_accepted: %s raised %s on a well-formed format' % (call, k))
+        elif nth is False:
+            fails.append('nth_name: %s raised %s; a list of %d names has no name number %d (BibTeX warns and yields the empty string)' % (
+                call, k, len(case['parts']), case['n']))
+    elif 'no_such_name' in io:
+        if isinstance(nth, str):
+            fails.append('nth_name: %s found no name number %d in a list of %d names' % (call, case['n'], len(case['parts'])))
     else:
-        if not wellformed(fmt):
-            fails.append('malformed_rejected: format_name(%r, %r) = %r although the format is malformed' % (case['name'], fmt, io['str']))
+        if nth is False:
+            fails.append('nth_name: %s = %r without a warning although a list of %d names has no name number %d' % (
+                call, io['str'], len(case['parts']), case['n']))
+        elif not wellformed(fmt):
+            fails.append('malformed_rejected: %s = %r although the format is malformed' % (call, io['str']))
         spec = reply.get('spec')
         if spec is not None and 'str' in spec and spec['str'] != io['str']:
-            fails.append('matches_bibtex: format_name(%r, %r) = %r, BibTeX rule gives %r' % (case['name'], fmt, io['str'], spec['str']))
+            if case['op'] == 'fmtnth':
+                fails.append('nth_name: %s = %r, the BibTeX rule on name number %d (%r) gives %r' % (call, io['str'], case['n'], nth, spec['str']))
+            else:
+                fails.append('matches_bibtex: %s = %r, BibTeX rule gives %r' % (call, io['str'], spec['str']))
     return fails
 
 
 def buckets(case, io):
+    b = [case['op']]
     if 'error' in io:
-        return ['error:' + io['error']]
-    b = ['ok']
+        return b + ['error:' + io['error']]
+    if 'no_such_name' in io:
+        return b + ['no_such_name']
+    b.append('ok')
     if '~' in case['fmt']:
         b.append('tie')
+    text = case['fmt'] + (case.get('name') or ''.join(case.get('parts', [])))
+    if not text.isascii():
+        b.append('non-ascii')
     return b
 
 
 def nontrivial(case, io):
+    if case['op'] == 'fmtnth':
+        return '{' in case['fmt'] and len(case['parts']) > 0
     return '{' in case['fmt'] and ' ' in case['name']
 
 
@@ -133,43 +300,191 @@ def _part(letters, pre, post, delim):
     return '{' + pre + letters + ('' if delim is None else '{' + delim + '}') + post + '}'
 
 
+def _c04():
+    import props.c04 as c04
+    return c04
+
+
+def _shape_names(tier):
+    """names from the C04 token shapes: every shape of <= 2 tokens over ALL token classes (ASCII and non-ASCII), 3 tokens over a reduced
+    class set; blank-separated; without comma, with a comma after the first token, (3 tokens) also von-Last, Jr, First form"""
+    c04 = _c04()
+    alltok = dict(c04.TOKENS)
+    alltok.update(getattr(c04, 'UTOKENS', {}))
+    classes = list(alltok)
+    out = []
+    for n in (1, 2):
+        for cl in itertools.product(classes, repeat=n):
+            toks = [alltok[c] for c in cl]
+            out.append(' '.join(toks))
+            if n == 2:
+                out.append(toks[0] + ', ' + toks[1])
+    reduced = [c for c in ('Cap', 'low', 'caseless', 'hyph', 'spL', 'uCap', 'cjk', 'circL') if c in alltok]
+    if tier == 'quick':
+        reduced = reduced[:6]
+    for cl in itertools.product(reduced, repeat=3):
+        toks = [alltok[c] for c in cl]
+        out.append(' '.join(toks))
+        out.append(toks[0] + ' ' + toks[1] + ', ' + toks[2])
+        out.append(toks[0] + ', ' + toks[1] + ', ' + toks[2])
+    return out
+
+
+def _table_boundaries():
+    """code points at and next to the boundaries of the interpreter's isalnum / isdecimal / isalpha ranges"""
+    out = set()
+    for pred in (str.isalnum, str.isdecimal, str.isalpha):
+        prev = False
+        for cp in range(0x110000):
+            ok = not (0xD800 <= cp <= 0xDFFF) and pred(chr(cp))
+            if ok != prev:
+                out.update((cp - 1, cp))
+            prev = ok
+    return sorted(c for c in out if 0 < c < 0x110000 and not 0xD800 <= c <= 0xDFFF)
+
+
 def gen_cases(tier, rng, info):
     cases = []
+    quick = tier == 'quick'
+
+    def add(name, fmt):
+        cases.append({'op': 'fmtname', 'name': name, 'fmt': fmt})
+
     parts = [_part(l, pre, post, d) for l in LETTERS for pre in PRE for post in POST for d in DELIM]
-    names = NAMES if tier == 'thorough' else NAMES[:10]
+    names = NAMES if not quick else NAMES[:10]
     for name in names:
         for p in parts:
-            cases.append({'op': 'fmtname', 'name': name, 'fmt': p})
-    std = ['{ff~}{vv~}{ll}{, jj}', '{vv~}{ll}{, jj}{, f.}', '{f.~}{vv~}{ll}{, jj}', '{ll}', 'abc def {f~} xyz {f}?',
-           '{{abc}{def}ff~{xyz}{#@$}}', '{f{.}~}', '{vv~}{ll}', '{ff }{vv }{ll}{ jj}', '{l}', '{v{}}{l{}}', '{ll~}x', '{~ll}', '{ll{-}~~}']
+            add(name, p)
     for name in NAMES:
-        for f in std:
-            cases.append({'op': 'fmtname', 'name': name, 'fmt': f})
+        for f in STD:
+            add(name, f)
     # two-part formats on a few names
     small = [_part(l, pre, post, d) for l in ('f', 'll', 'vv', 'jj') for pre in ('', ', ') for post in ('', '~', '~~') for d in (None, '-')]
     for name in NAMES[:4]:
         for a, b in itertools.product(small, repeat=2):
-            cases.append({'op': 'fmtname', 'name': name, 'fmt': a + ' ' + b})
-    maxlen = 4 if tier == 'quick' else 5
+            add(name, a + ' ' + b)
+    maxlen = 4 if quick else 5
     nmal = 0
     for n in range(0, maxlen + 1):
         for tup in itertools.product(MAL, repeat=n):
-            cases.append({'op': 'fmtname', 'name': 'de la Fontaine, Jr, Jean Paul', 'fmt': ''.join(tup)})
+            add('de la Fontaine, Jr, Jean Paul', ''.join(tup))
             nmal += 1
+    # systematic malformed parts: two letter runs with every kind of text between them, illegal runs, unbalanced braces
+    nsys = 0
+    for a in RUNS2:
+        for j in JOINERS:
+            for b in (RUNS2 if not quick else RUNS2[:8]):
+                add('de la Fontaine, Jr, Jean Paul', '{' + a + j + b + '}')
+                nsys += 1
+        for pre in ('', '1', '{x}', ' '):
+            for post in ('', '~', '{-}', '{-}.~'):
+                add('Jean Paul Sartre', '{' + pre + a + post + '}')
+                nsys += 1
+    for f in UNBALANCED:
+        for name in ('de la Fontaine, Jr, Jean Paul', ''):
+            add(name, f)
+            add(name, 'x' + f + '{ll}')
+            nsys += 2
+    # the name families the property quantifies over x the formats that exercise every letter, separator and tie form
+    edge = BACKSLASH_NAMES + HYPHEN_NAMES + WS_NAMES + UNI_NAMES + list(getattr(_c04(), 'UNICODE_NAMES', []))
+    red = [_part(l, pre, post, d) for l in ('f', 'ff', 'l', 'll', 'v', 'vv', 'j', 'jj') for pre in ('', ', ', '{x}')
+           for post in ('', '.', '~', '.~') for d in (None, '', '-')]
+    if not quick:
+        red = parts
+    for name in edge:
+        for f in red + KEYFMTS + STD:
+            add(name, f)
+    shapes = _shape_names(tier)
+    shapefmts = KEYFMTS if quick else KEYFMTS + STD
+    for name in shapes:
+        for f in shapefmts:
+            add(name, f)
+    # the C04 generator itself (same tier): its names -- token shapes x comma placements x separators, exhaustive short strings, noisy
+    # Unicode names, table-boundary tokens -- each with one of the key formats in rotation (a deterministic stride bounds the number)
+    import random
+    c04cases = [c['s'] for c in _c04().gen_cases(tier, random.Random(rng.random()), {}) if c.get('op') == 'person' and isinstance(c.get('s'), str)]
+    cap = 25000 if quick else 250000
+    stride = max(1, -(-len(c04cases) // cap))
+    nc04 = 0
+    for i, name in enumerate(c04cases[::stride]):
+        add(name, KEYFMTS[i % len(KEYFMTS)])
+        nc04 += 1
+    # non-ASCII text, letters and digits in the format
+    uninames = ['Al Bob Cy', 'de la Fontaine, Jr, Jean Paul', 'Édouard van Beneden', '毛 泽东', 'A B C D', '']
+    for f in UNI_FMTS:
+        for name in uninames:
+            add(name, f)
+    # the tables themselves: code points at the boundaries of the interpreter's classes (and random ones) as post-text, pre-text,
+    # separator, level-0 text, letter run; and as the first character of a name token
+    bounds = _table_boundaries()
+    frames_f = ['{ff%s}', '{%sff}', '{ff{%s}}', '%s{ll}', '{%s}', '{f%s~}', '{1%s2}']
+    frames_n = ['%sx Last', 'A%s Last', '1%s Last', '%s-%s Last', '{%s}x Last']
+    for _ in range(1500 if quick else 40000):
+        cp = rng.choice(bounds) if rng.random() < 0.7 else rng.choice([rng.randint(0x80, 0x2FFF), rng.randint(0x80, 0xFFFF), rng.randint(0x10000, 0x323AF)])
+        if 0xD800 <= cp <= 0xDFFF:
+            continue
+        ch = chr(cp)
+        if rng.random() < 0.6:
+            add(rng.choice(['Al Bob Cy', 'A B']), rng.choice(frames_f).replace('%s', ch))
+        else:
+            add(rng.choice(frames_n).replace('%s', ch), rng.choice(['{f.~}{ll}', '{f{}}{l{}}', '{ff~}{vv~}{ll}']))
+    # brace nesting: verbatim text nested far deeper than any Python recursion limit; the nesting limit of the string primitives (100)
+    # applies only where the text length is asked for (discretionary tie, three or more tokens)
+    ndeep = 0
+    for d in ([1, 5, 99, 100, 101, 300, 600, 1200] if quick else [1, 2, 5, 50, 98, 99, 100, 101, 102, 200, 300, 400, 500, 600, 800, 1000, 1200, 2500]):
+        g = '{' * d + 'x' + '}' * d
+        for f in ('{' + g + 'ff}', '{' + g + 'ff~}', '{ff{' + g + '}}', '{ff' + g + '}', '{ff ' + g + '~}', '{' + g + '}', '{' + g + '~}', '{ff' + '{' * d + '}' * (d - 1) + '}',
+                  'a' + g, '{ff{' + g + '}}{ll' + g + '}'):
+            for name in ('Al Bob', 'Al Bob Cy Di'):
+                add(name, f)
+                ndeep += 1
+        for name in ('A' + g + ' Bob', g + ' ' + g + ' ' + g + ' Z', 'a' + g + ' B'):
+            add(name, '{ff~}{vv~}{ll}')
+            add(name, '{f.~}{ll}')
+            ndeep += 2
+    # the format.name$ built-in: name lists x name numbers (in and out of range) x formats
+    listpool = NAMES + BACKSLASH_NAMES[:4] + HYPHEN_NAMES[:6] + WS_NAMES[:4] + UNI_NAMES[:6] + ['{Barnes and Noble}', 'Smith, and', 'others', 'Anderson', 'Land and', 'and']
+    nnth = 0
+    lists = [[], [''], ['Smith'], ['A B', 'C D'], ['A B', 'C D', 'E F'], ['von Beethoven, Jr, Ludwig', '{Barnes and Noble}', 'Jean-Paul Sartre', 'others'],
+             ['a b, c d, e f, g', 'Smith'], ['Smith', 'a b, c d, e f, g'], ['A', 'A', 'A'], ['Armand', 'anderssen'], [' A ', '\tB\n'], ['', 'A', '']]
+    for pl in lists:
+        for n in range(-1, len(pl) + 3):
+            for f in ('{ff~}{vv~}{ll}{, jj}', '{f.~}{ll}', '{ll', ''):
+                cases.append({'op': 'fmtnth', 'parts': pl, 'n': n, 'fmt': f})
+                nnth += 1
+    for _ in range(1500 if quick else 30000):
+        pl = [rng.choice(listpool) for _ in range(rng.randint(0, 5))]
+        n = rng.choice([rng.randint(1, max(1, len(pl))), rng.randint(1, max(1, len(pl))), rng.randint(-1, len(pl) + 2)])
+        cases.append({'op': 'fmtnth', 'parts': pl, 'n': n, 'fmt': rng.choice(KEYFMTS + STD + ['{ll', '{ff}}', '{fl}', 'et al.'])})
+        nnth += 1
     info['exhaustive'] = True
     info['scope'] = ('%d one-part formats x %d names; %d standard formats x %d names; %d two-part formats x 4 names; all %d format strings '
-                     'of length <=%d over %r' % (len(parts), len(names), len(std), len(NAMES), len(small) ** 2, nmal, maxlen, MAL))
-    import props.c04 as c04
-    pool = list(c04.TOKENS.values()) + ['de', 'la', 'Jr.', 'A.', 'x', 'Al', 'Jean-Paul', '{\\relax von}']
+                     'of length <=%d over %r; %d systematic two-run / illegal-run / unbalanced formats; %d edge names (level-0 backslash, hyphen pieces, '
+                     'white space, non-ASCII) x %d formats; %d C04 shape names x %d formats; %d names of the C04 generator (every %d-th of its %d) x one key '
+                     'format each; %d non-ASCII formats x %d names; %d nested-brace cases; '
+                     '%d format.name$ built-in cases (%d systematic lists x every name number)' % (
+                         len(parts), len(names), len(STD), len(NAMES), len(small) ** 2, nmal, maxlen, MAL, nsys, len(edge), len(red + KEYFMTS + STD),
+                         len(shapes), len(shapefmts), nc04, stride, len(c04cases), len(UNI_FMTS), len(uninames), ndeep, nnth, len(lists)))
+    c04 = _c04()
+    apool = list(c04.TOKENS.values()) + ['de', 'la', 'Jr.', 'III', '{\\relax van}', 'd\'Aviano', '{', '}', '\\', '~', ',', ' ', '  ', 'and', '{{\\LaTeX}}',
+                                         '\\~{n}', 'A.', 'x', 'Al', 'Jean-Paul', '{\\relax von}', "\\'E", '-', '--', 'J-', '-K', '1-2', '\t', '\n', 'Ab', 'Abc']
+    upool = apool + list(getattr(c04, 'UTOKENS', {}).values()) + list(getattr(c04, 'UPOOL', []))
     fpool = LETTERS + PRE + POST + ['{', '}', '{', '}', ' ', ', ', '.', '-', 'and', '{-}', '{.}', '_', '12', '{{a}}', '~']
-    for _ in range(3000 if tier == 'quick' else 60000):
-        name = ''.join(rng.choice(pool) + rng.choice([' ', ' ', '~', ', ']) for _ in range(rng.randint(1, 6)))
-        if rng.random() < 0.5:
+    ufpool = fpool + ['é', '²', '٣', '毛', '·', ' ', '{é}', 'ｆ', 'Ⅷ']
+    for i in range(6000 if quick else 120000):
+        pl = apool if i % 2 else upool
+        name = ''.join(rng.choice(pl) + rng.choice([' ', ' ', '~', ', ', '', '-']) for _ in range(rng.randint(1, 6)))
+        if rng.random() < 0.01:
+            name += '{' * rng.choice([99, 100, 101]) + 'x' + '}' * 100
+        r = rng.random()
+        if r < 0.5:
             fmt = ''.join(_part(rng.choice(LETTERS), rng.choice(PRE), rng.choice(POST), rng.choice(DELIM)) + rng.choice(['', ' ', 'x '])
                           for _ in range(rng.randint(1, 4)))
+        elif r < 0.6:
+            fmt = rng.choice(KEYFMTS + STD)
         else:
-            fmt = ''.join(rng.choice(fpool) for _ in range(rng.randint(1, 8)))
-        cases.append({'op': 'fmtname', 'name': name, 'fmt': fmt})
+            fmt = ''.join(rng.choice(ufpool if i % 4 == 0 else fpool) for _ in range(rng.randint(1, 8)))
+        add(name, fmt)
     return cases
 
 
@@ -178,10 +493,22 @@ LEVEL_TEXT = ('Machine-checked proof (Lean 4): for EVERY name and EVERY format s
               '(Spec/NameFormat.lean: declarative grammar of format strings -- level-0 text | { verbatim* letters [{sep}] verbatim* } -- and the '
               'formatting rule on the parsed shape, transcribed clause by clause from the property), incl. the error classes; malformed formats '
               '(a predicate read directly off the string) are rejected and well-formed ones accepted; the model is total (no internal outcome). '
-              'Clause theorems (level-0 text, omitted parts, full/abbreviated, explicit/default separator, discretionary ties) are stated on the '
-              'model directly. The model AND the reference are tied to the code by the differential check (reference = implementation on every case).')
-LEVEL_NOTE = ('Trusted: Lean kernel; axioms propext/Classical.choice/Quot.sound only; the hand-written model (Model/NameFormat.lean, Model/Names.lean, '
-              'Model/TeXString.lean) corresponds to pybtex/bibtex/names.py only as far as the differential check explores; letters/digits are ASCII in '
-              'the model (the regexes of the code are Unicode-aware); the reference builds on the C04 split of a name (mkPerson) and the C12 primitives '
-              '(scan, bibtex_len, split_tex_string on "-"), it does not re-specify them; fidelity of the reference rule to the BibTeX program itself is '
-              'by reading (no BibTeX binary to compare with). The format.name$ built-in (name index, memoisation) is covered by C03.')
+              'Clause theorems (level-0 text, omitted parts, full/abbreviated for one and for any number of tokens, explicit/default separator, '
+              'discretionary ties) are stated on the model directly; a compositional theorem (a well-formed part in front of ANY format string '
+              'contributes the rule for that part alone) gives level-0 text and parts at any position without the reference parser; hyphen-aware '
+              'abbreviation is stated on tokens written as hyphen-joined pieces (initials of the pieces in order, letterless pieces skipped); the '
+              'format.name$ built-in formats exactly the n-th name of a list written with " and ". Letters are the running interpreter\'s Unicode '
+              'classes in model and reference. The model AND the reference are tied to the code by the differential check (reference = '
+              'implementation on every case).')
+LEVEL_NOTE = ('Trusted: Lean kernel; axioms propext/Classical.choice/Quot.sound only; the hand-written model (Model/NameFormat.lean, '
+              'Model/NameFormatChars.lean, Model/Names.lean, Model/TeXString.lean) corresponds to pybtex/bibtex/names.py only as far as the '
+              'differential check explores; the character classes of the format grammar (\\w, \\d) and of the first letter of a token (isalpha) are '
+              'the running interpreter\'s tables, regenerated on every run; the reference builds on the C04 split of a name (mkPerson) and the C12 '
+              'primitives (scan, bibtex_len, split_tex_string on "-"), it does not re-specify them; fidelity of the reference rule to the BibTeX '
+              'program itself is by reading (no BibTeX binary or bibtex.web in this environment). Two points of the rule could NOT be checked '
+              'against BibTeX and are recorded as unverified: (1) BibTeX\'s enough_text_chars for the tie after the first token may count from the '
+              'start of the part (pre-text and the period of an abbreviation included) whereas code and reference count the first token alone -- '
+              'observable only with a pre-text before the letters and three or more tokens; (2) BibTeX tokenises names at "-" as well and keeps '
+              'the separator per token (name_sep_char), the code keeps hyphenated tokens whole and abbreviates them piecewise -- token counts for '
+              'the tie rule may differ on hyphenated names. The format.name$ built-in (name index, memoisation) is driven by the fmtnth family; '
+              'operands of other types are covered by C03.')
